@@ -265,7 +265,7 @@ MANIFEST = dict(
          'byte (length field, body, padding, tag), truncation at any byte, dropping, duplicating, swapping or splicing whole packets, rewriting a length '
          'field, appending bytes - and fed to the real receive path: exactly the packets before the first affected one are delivered, intact and in '
          'order, the connection then ends with a MAC/protocol error or stalls, and nothing else ever reaches a handler; packets do not verify under a '
-         'different sequence number.',
+         'different sequence number; the same holds when the bytes after the affected packet arrive in later data_received calls, and the number of packets that pass the integrity check equals the number delivered.',
     note='Because the primitives are C code the stream is concrete and the solver only ranges over the tampering space (every path is then run natively): '
          'this is exhaustive within the stated operations, not a proof about the primitives. Multi-operation tampering beyond pairs and streams longer '
          'than three packets are outside. Trusted: PyCA/hashlib/hmac/zlib, CrossHair, z3, the oracle in props/C01.py.')
